@@ -39,7 +39,7 @@ for suffix, press in (("M", "true"), ("m", "false")):
       "SGR mouse report: pos == (y-1, x-1) exactly, modifier bits == (b>>2)&7 (shift, alt, ctrl), PRESS flag iff final byte is M, button name per the library table; zero coordinates never underflow (unrecognised instead); no panic",
       '''    let got = dec(&MouseEventMatcher, buf, &v);
     let (b, x, y) = (v[0], v[1], v[2]);
-    match got {
+    match &got {
         Some(TerminalEvent::Mouse(m)) => {
             assert!(x >= 1 && y >= 1);
             assert!(m.pos.col == x - 1 && m.pos.row == y - 1);
@@ -54,44 +54,54 @@ for suffix, press in (("M", "true"), ("m", "false")):
         }
         Some(_) => assert!(false),
         None => assert!(x == 0 || y == 0),
-    }''' % press))
+    }
+    std::mem::forget(got); // no drop glue of the other TerminalEvent variants (BTreeMap/String) for CBMC to unroll''' % press))
 
 # ---- CPR: CSI row ; col R
 parts.append(h("c04_cursor_position", "C04,C02", "\x1b[a;bR", "<CursorPositionMatcher as Matcher>::decode",
   "cursor position report decodes to (row-1, col-1) exactly; a zero coordinate never underflows (unrecognised instead)",
-  '''    match dec(&CursorPositionMatcher, buf, &v) {
+  '''    let got = dec(&CursorPositionMatcher, buf, &v);
+    match &got {
         Some(TerminalEvent::CursorPosition(p)) => assert!(v[0] >= 1 && v[1] >= 1 && p.row == v[0] - 1 && p.col == v[1] - 1),
         Some(_) => assert!(false),
         None => assert!(v[0] == 0 || v[1] == 0),
-    }'''))
+    }
+    std::mem::forget(got);'''))
 
 # ---- DECRPM: CSI ? mode ; status $ y
 parts.append(h("c04_dec_mode_report", "C04,C02", "\x1b[?a;b$y", "<DecModeMatcher as Matcher>::decode",
   "DECRPM decodes to the mode and status whose numeric codes were transmitted; unknown codes are unrecognised",
-  '''    match dec(&DecModeMatcher, buf, &v) {
-        Some(TerminalEvent::DecMode { mode, status }) => assert!(mode as usize == v[0] && status as usize == v[1]),
+  '''    let got = dec(&DecModeMatcher, buf, &v);
+    match &got {
+        Some(TerminalEvent::DecMode { mode, status }) => assert!(*mode as usize == v[0] && *status as usize == v[1]),
         Some(_) => assert!(false),
         None => assert!(crate::terminal::DecMode::from_usize(v[0]).is_none() || DecModeStatus::from_usize(v[1]).is_none()),
-    }''', unwind=12))
+    }
+    std::mem::forget(got);''', unwind=12))
 
 # ---- XTWINOPS size reports
 parts.append(h("c04_term_size", "C04,C02", "\x1b[8;a;bt\x1b[4;c;dt", "<TermSizeMatcher as Matcher>::decode",
   "text-area size reports decode to exactly the transmitted cell and pixel sizes",
-  '''    match dec(&TermSizeMatcher, buf, &v) {
+  '''    let got = dec(&TermSizeMatcher, buf, &v);
+    match &got {
         Some(TerminalEvent::Size(s)) => assert!(s.cells.height == v[0] && s.cells.width == v[1] && s.pixels.height == v[2] && s.pixels.width == v[3]),
         _ => assert!(false),
-    }'''))
+    }
+    std::mem::forget(got);'''))
 
 # ---- kitty keyboard
 parts.append(h("c04_kitty_level", "C04,C02", "\x1b[?au", "<KittyKeyboardMatcher as Matcher>::decode",
   "CSI ? n u decodes to keyboard level n",
-  '''    match dec(&KittyKeyboardMatcher, buf, &v) {
-        Some(TerminalEvent::KeyboardLevel(n)) => assert!(n == v[0]),
+  '''    let got = dec(&KittyKeyboardMatcher, buf, &v);
+    match &got {
+        Some(TerminalEvent::KeyboardLevel(n)) => assert!(*n == v[0]),
         _ => assert!(false),
-    }'''))
+    }
+    std::mem::forget(got);'''))
 parts.append(h("c04_kitty_key_mods", "C04,C02", "\x1b[a;bu", "<KittyKeyboardMatcher as Matcher>::decode,keyboard_decode_key",
   "CSI code ; mods u decodes to the key keyboard_decode_key(code) names and modifier bits (mods-1)&511 (none for mods <= 1); unknown codes unrecognised; no panic",
-  '''    match dec(&KittyKeyboardMatcher, buf, &v) {
+  '''    let got = dec(&KittyKeyboardMatcher, buf, &v);
+    match &got {
         Some(TerminalEvent::Key(k)) => {
             assert!(keyboard_decode_key(v[0]) == Some(k.name));
             let want = if v[1] > 1 { KeyMod::from_bits((v[1] - 1) as u32) } else { KeyMod::EMPTY };
@@ -99,22 +109,27 @@ parts.append(h("c04_kitty_key_mods", "C04,C02", "\x1b[a;bu", "<KittyKeyboardMatc
         }
         Some(_) => assert!(false),
         None => assert!(keyboard_decode_key(v[0]).is_none()),
-    }'''))
+    }
+    std::mem::forget(got);'''))
 parts.append(h("c02_kitty_key_empty", "C02", "\x1b[u", "<KittyKeyboardMatcher as Matcher>::decode",
   "CSI u with an empty parameter string (accepted by the matcher's NFA) does not panic",
-  '''    let _ = dec(&KittyKeyboardMatcher, buf, &v);'''))
+  '''    let got = dec(&KittyKeyboardMatcher, buf, &v);
+    std::mem::forget(got);'''))
 parts.append(h("c02_kitty_key_alt_event", "C02,C04", "\x1b[a:b;c:du", "<KittyKeyboardMatcher as Matcher>::decode",
   "CSI code:alt ; mods:event u : key from the first code, event type != 0 is unrecognised, never a panic",
-  '''    match dec(&KittyKeyboardMatcher, buf, &v) {
+  '''    let got = dec(&KittyKeyboardMatcher, buf, &v);
+    match &got {
         Some(TerminalEvent::Key(k)) => assert!(keyboard_decode_key(v[0]) == Some(k.name) && v[3] == 0),
         Some(_) => assert!(false),
         None => assert!(keyboard_decode_key(v[0]).is_none() || v[3] != 0),
-    }'''))
+    }
+    std::mem::forget(got);'''))
 
 # ---- DA1
 parts.append(h("c04_device_attrs", "C04,C02", "\x1b[?a;b;cc", "<DeviceAttrsMatcher as Matcher>::decode",
   "DA1 response decodes to the set of its non-zero attributes",
-  '''    match dec(&DeviceAttrsMatcher, buf, &v) {
+  '''    let got = dec(&DeviceAttrsMatcher, buf, &v);
+    match &got {
         Some(TerminalEvent::DeviceAttrs(set)) => {
             let mut k = 0;
             while k < 3 { assert!(set.contains(&v[k]) == (v[k] != 0)); k += 1; }
@@ -122,21 +137,26 @@ parts.append(h("c04_device_attrs", "C04,C02", "\x1b[?a;b;cc", "<DeviceAttrsMatch
             assert!(set.len() == distinct);
         }
         _ => assert!(false),
-    }''', tier="thorough", unwind=14))
+    }
+    std::mem::forget(got);''', tier="thorough", unwind=14))
 
 # ---- kitty image response
 parts.append(h("c04_kitty_image_ok", "C04,C02", "\x1b_Gi=a,p=b;OK\x1b\\", "<KittyImageMatcher as Matcher>::decode",
   "kitty graphics response: id and placement are exactly the transmitted numbers, OK means no error",
-  '''    match dec(&KittyImageMatcher, buf, &v) {
-        Some(TerminalEvent::KittyImage { id, placement, error }) => assert!(id == v[0] as u64 && placement == Some(v[1] as u64) && error.is_none()),
+  '''    let got = dec(&KittyImageMatcher, buf, &v);
+    match &got {
+        Some(TerminalEvent::KittyImage { id, placement, error }) => assert!(*id == v[0] as u64 && *placement == Some(v[1] as u64) && error.is_none()),
         _ => assert!(false),
-    }''', unwind=20))
+    }
+    std::mem::forget(got);''', unwind=20))
 parts.append(h("c04_kitty_image_noplacement", "C04,C02", "\x1b_Gi=a;OK\x1b\\", "<KittyImageMatcher as Matcher>::decode",
   "kitty graphics response without p= has no placement",
-  '''    match dec(&KittyImageMatcher, buf, &v) {
-        Some(TerminalEvent::KittyImage { id, placement, error }) => assert!(id == v[0] as u64 && placement.is_none() && error.is_none()),
+  '''    let got = dec(&KittyImageMatcher, buf, &v);
+    match &got {
+        Some(TerminalEvent::KittyImage { id, placement, error }) => assert!(*id == v[0] as u64 && placement.is_none() && error.is_none()),
         _ => assert!(false),
-    }''', unwind=18))
+    }
+    std::mem::forget(got);''', unwind=18))
 
 # ---- OSC colour reports: rgb:<r>/<g>/<b> with 1-4 hex digits per component (XParseColor scaling)
 def parse_color_harness(nd):
@@ -173,7 +193,7 @@ fn c04_parse_color_%ddigit() {
     }
     kani::cover!(want[0] > 0);
 }
-''' % ("quick" if nd == 4 else "thorough", nd, nd, n + 4, nd, n - 1 if False else 4 + 3 * nd + 2, nd + 1, nd, nd, nd)
+''' % ("thorough", nd, nd, n + 4, nd, n - 1 if False else 4 + 3 * nd + 2, nd + 1, nd, nd, nd)
 
 for nd in (4, 2, 1, 3):
     parts.append(parse_color_harness(nd))
